@@ -3,7 +3,7 @@
 
     // C01 — everything else (parser recursion, VM operand stack discipline, filters taking &State, formatting) is
     // outside the verifiers' reach: BOUNDED native stand-in, panics caught.
-//# ob name=no_panic_corpus_native role=native_bounded fn=Environment::{add_template,compile_expression}+Template::render kind=bounded bound="(a) every source of length <= 4 tokens over a 17-token alphabet of syntax fragments (about 9*10^4 sources) loaded and rendered; (b) 150 expressions applying size/count/index taking filters, functions, operators and loop methods to boundary arguments {0, +-1, 2^31, 2^62, 2^63-1, 2^63, 2^64-1, -2^63, huge floats, empty / huge strings}; (b1) every built-in filter and every built-in test (names taken from the engine's tables) applied to 20 boundary values with 0, 1 and 2 boundary arguments (> 10^5 expressions); (c) moderately deep nesting (depth 100) of every recursive syntax form; debug profile with overflow checks" stmt="loading and rendering either succeeds or returns an error value; it never panics, aborts on arithmetic overflow, indexes out of bounds, unwraps None or requests an allocation whose size the template chose"
+//# ob name=no_panic_corpus_native role=native_bounded fn=Environment::{add_template,compile_expression}+Template::render kind=bounded bound="(a) every source of length <= 4 tokens over a 17-token alphabet of syntax fragments (about 9*10^4 sources) loaded and rendered; (b) 150 expressions applying size/count/index taking filters, functions, operators and loop methods to boundary arguments {0, +-1, 2^31, 2^62, 2^63-1, 2^63, 2^64-1, -2^63, huge floats, empty / huge strings}; (b1) every built-in filter and every built-in test (names taken from the engine's tables) applied to 20 boundary values with 0, 1 and 2 boundary arguments (> 10^5 expressions); (b4) every character U+0000..=U+03FF plus 10 others, alone and embedded, through 35 string formatting / slicing / re-encoding paths; (c) moderately deep nesting (depth 100) of every recursive syntax form; debug profile with overflow checks" stmt="loading and rendering either succeeds or returns an error value; it never panics, aborts on arithmetic overflow, indexes out of bounds, unwraps None or requests an allocation whose size the template chose"
     fn no_panic_corpus_native() {
         use crate::value::Value;
         let guard = |what: &str, f: &mut dyn FnMut()| {
@@ -106,6 +106,32 @@
                   "{% for a, b in [[1, 2], [3]] %}{{ a }}{% endfor %}", "{% for a, b in 5 %}{% endfor %}", "{{ namespace(a=1).b }}", "{% set ns = namespace() %}{% set ns.x = 1 %}{{ ns.x }}",
                   "{{ dict(a=1)|items|list }}", "{{ {}|dictsort }}", "{{ [1, 'a', none, [], {}]|sort }}", "{{ [[1], [2]]|sum(start=[]) }}", "{{ 'x'|center(-1) if false }}"] {
             guard(t, &mut || { let env = Environment::new(); let _ = env.render_str(t, ()); });
+        }
+        // (b4) every character U+0000..=U+03FF and a few beyond (line / paragraph separators, BOM, surrogate neighbours,
+        // astral) as a one-character string and embedded in text, through every path that formats, re-slices or
+        // re-encodes strings: repr inside containers, pprint, debug(), tojson, urlencode, case filters, trim, indent,
+        // replace, split, lines, subscripts / slices, error messages that quote the string
+        {
+            let mut env = Environment::new();
+            env.set_debug(true);
+            let paths = ["{{ [s] }}", "{{ (s, s) }}", "{{ {'k': s} }}", "{{ {s: 1} }}", "{{ s|pprint }}", "{{ [t]|pprint }}", "{{ debug(s) }}", "{{ s|tojson }}", "{{ [t]|tojson(indent=2) }}", "{{ s|urlencode }}", "{{ {s: t}|urlencode }}",
+                         "{{ t|title }}", "{{ t|capitalize }}", "{{ t|upper }}{{ t|lower }}", "{{ t|trim }}{{ t|trim(s) }}", "{{ t|indent(2, true, true) }}", "{{ t|replace(s, 'xy') }}{{ t|replace('a', s) }}", "{{ t|split(s) }}{{ t|split }}",
+                         "{{ t|lines }}", "{{ t[0] }}{{ t[1] }}{{ t[-1] }}{{ t[1:] }}{{ t[::-1] }}{{ t[::2] }}", "{{ t|list }}{{ t|reverse }}{{ t|first }}{{ t|last }}{{ t|length }}", "{{ t|escape }}{{ t|e|string }}", "{{ t|truncate(2) if false }}",
+                         "{{ [t, s]|sort }}{{ [t, s]|unique|list }}{{ [t, s]|join(s) }}", "{{ t|int(default=0) }}{{ t|float(default=0) }}", "{{ t is startingwith(s) if false }}{{ s in t }}{{ t < s }}", "{% include s %}", "{% include [s, t] ignore missing %}",
+                         "{{ undefined_fn(s) }}", "{{ s.attr(t) }}", "{{ {}[s] }}{{ {'a': 1}[t] }}", "{{ namespace(v=s) }}", "{{ dict(k=t)|items|list }}", "{{ '%s|%r'|format(s, t) if false }}{{ '%s'|format(t) }}", "{{ s ~ t }}{{ s * 3 }}"];
+            let mut cps: Vec<u32> = (0..=0x3FFu32).collect();
+            cps.extend([0x2028, 0x2029, 0xFEFF, 0xD7FF, 0xE000, 0xFFFD, 0xFFFF, 0x10000, 0x1F600, 0x10FFFF]);
+            let mut k = 0u64;
+            for cp in cps {
+                let Some(c) = char::from_u32(cp) else { continue };
+                let s1 = c.to_string();
+                let t1 = format!("a{c}b{c}");
+                for p in paths {
+                    guard(&format!("{p} with U+{cp:04X}"), &mut || { let _ = env.render_str(p, crate::context! { s => s1.clone(), t => t1.clone() }); });
+                    k += 1;
+                }
+            }
+            assert!(k > 30_000, "{k}");
         }
         // (b2) whitespace control next to non-ASCII whitespace, and more distinct filters / tests than the VM caches
         for ws in ["\u{a0}", "\u{1680}", "\u{2003}", "\u{2028}", "\u{3000}", "\u{85}", "\t", "\r\n", " \u{a0} "] {
